@@ -107,3 +107,77 @@ def flows_through_otround(prog, fi: FuncInfo, e: ast.AST, extra_ok=None) -> Tupl
             return True
         return False
     return every_origin(prog, fi, e, ok)
+
+
+# ------------------------------------------------------------------ coordinates vs truthiness
+def coordinate_valued(prog, fi: FuncInfo, e: ast.AST, depth: int = 0, _seen=None) -> bool:
+    """e may hold an anchor coordinate (a number for which 0 is a legitimate value):
+    <anchor>.x / .y, self._getAnchor(...)[i], a local / helper return / generator
+    element derived from those."""
+    if depth > 6:
+        return False
+    if isinstance(e, ast.Attribute) and e.attr in ("x", "y") and not isinstance(e.value, ast.Call):
+        return True
+    if isinstance(e, ast.Subscript) and isinstance(e.value, ast.Call) and A.callee_name(e.value) == "_getAnchor":
+        return True
+    if isinstance(e, ast.Subscript) and isinstance(e.value, ast.Name) and isinstance(e.slice, ast.Constant):
+        return any(isinstance(d.value, ast.Call) and A.callee_name(d.value) == "_getAnchor" and d.element()[1] is None for d in prog.reaching(fi, e.value.id, e.value))
+    if isinstance(e, ast.Call) and A.callee_name(e) in ("otRound", "otRoundIgnoringVariable", "quantize", "round") and e.args:
+        return coordinate_valued(prog, fi, e.args[0], depth + 1, _seen)
+    if isinstance(e, (ast.GeneratorExp, ast.ListComp, ast.SetComp)):
+        return coordinate_valued(prog, fi, e.elt, depth + 1, _seen)
+    if isinstance(e, ast.IfExp):
+        return coordinate_valued(prog, fi, e.body, depth + 1, _seen) or coordinate_valued(prog, fi, e.orelse, depth + 1, _seen)
+    if isinstance(e, ast.Name):
+        for d in prog.reaching(fi, e.id, e):
+            v, how = d.element()
+            if v is None or d.kind == "param":
+                continue
+            if how in (None, "iter") and coordinate_valued(prog, fi, v, depth + 1, _seen):
+                return True
+        return False
+    if isinstance(e, ast.Call):
+        ts, how = prog.resolve_callee(fi, e.func)
+        for t in ts:
+            if isinstance(t, FuncInfo) and how in ("exact", "cha", "self"):
+                seen = _seen or set()
+                if t.qname in seen:
+                    continue
+                seen.add(t.qname)
+                for r in A.returns_of(t.node):
+                    if r.value is not None and coordinate_valued(prog, t, r.value, depth + 1, seen):
+                        return True
+    return False
+
+
+def check_no_truthiness_on_coordinates(prog, chk, rule: str, modules: Iterable[str]) -> int:
+    """0 is a legitimate coordinate: a coordinate is never dropped / defaulted by a
+    truthiness test (filter(None, ...), `if v`, `v or d`, `not v`)."""
+    n = 0
+    mods = set(modules)
+    for fi in prog.ix.functions.values():
+        if fi.module.name not in mods:
+            continue
+        for node in A.body_nodes(fi.node):
+            tested = []
+            if isinstance(node, ast.Call) and isinstance(node.func, ast.Name) and node.func.id == "filter" and len(node.args) == 2 \
+                    and (A.is_const(node.args[0], None) or T(node.args[0]) == "bool"):
+                tested.append(node.args[1])
+            elif isinstance(node, (ast.If, ast.IfExp, ast.While)):
+                tested.append(node.test)
+            elif isinstance(node, ast.BoolOp):
+                tested += node.values[:-1] if isinstance(node.op, ast.Or) else node.values
+            elif isinstance(node, ast.UnaryOp) and isinstance(node.op, ast.Not):
+                tested.append(node.operand)
+            elif isinstance(node, ast.comprehension):
+                tested += node.ifs
+            for t in tested:
+                if isinstance(t, (ast.Compare, ast.BoolOp, ast.UnaryOp)) or (isinstance(t, ast.Call) and not (isinstance(node, ast.Call))):
+                    continue
+                n += 1
+                if coordinate_valued(prog, fi, t):
+                    chk.ob(rule, f"{fi.short}|{A.keytext(fi.node, node)[:70]}", False, where(fi, node),
+                           message=f"{fi.short}: an anchor coordinate is tested by truthiness (`{T(node, 60)}`): a coordinate of 0 is dropped / replaced "
+                                   f"although it is a legitimate position")
+    chk.ob(rule, "no anchor coordinate is tested by truthiness", True, "", detail=f"{n} truthiness tests examined in {sorted(m.rsplit('.', 1)[-1] for m in mods)}", nontrivial=False)
+    return n
